@@ -647,6 +647,17 @@ func (fr *Frame) instr(in ssa.Instruction) bool {
 	case *ssa.Phi:
 	case *ssa.Index:
 		a := fr.val(x.X)
+		if c.sortOf(x.X.Type()) == "Str" {
+			c.needStrSub()
+			i := fr.val(x.Index)
+			fr.nopanic("index", "(and (<= 0 "+i+") (< "+i+" (strlen "+a+")))", x.Pos())
+			fr.define(x, "(strat "+a+" "+i+")")
+			break
+		}
+		if at, ok := x.X.Type().Underlying().(*types.Array); ok {
+			i := fr.val(x.Index)
+			fr.nopanic("index", fmt.Sprintf("(and (<= 0 %s) (< %s %d))", i, i, at.Len()), x.Pos())
+		}
 		fr.define(x, sel(a, fr.val(x.Index)))
 	case *ssa.Panic:
 		top := fr.topFrame()
